@@ -36,6 +36,7 @@ struct Fmt {
 
 // the effective delimiter set is whatever the library decodes (the printer must talk about the same characters)
 inline void decode(Fmt &f) {
+  using namespace mpt;
   CObj<mpt::parser_format> pf;
   f.family = mpt_parse_format(pf, f.cstr());
   f.sstart = pf->sstart; f.send = pf->send; f.ostart = pf->ostart; f.assign = pf->assign; f.oend = pf->oend;
@@ -94,7 +95,8 @@ inline Fmt draw_fmt(Ctx &c, int family) {
   as = take(conv ? "=" : 0);
   if (c.chance(family == '*' ? 110 : 60)) oe = take(conv ? ";" : 0);
   if (family != '_' && c.chance(40)) os = take(conv ? "$" : 0);
-  size_t ncom = c.weighted({2, 8, 3, 1, 1});
+  static const size_t kNcom[] = {1, 0, 2, 3, 4};
+  size_t ncom = kNcom[c.weighted({8, 2, 3, 1, 1})];
   for (size_t i = 0; i < ncom; i++) com += (char)take(conv ? (i == 0 ? "#" : "!") : 0);
   size_t nesc = 1 + c.weighted({3, 5, 1});
   for (size_t i = 0; i < nesc; i++) esc += (char)take(conv ? (i == 0 ? "\"" : i == 1 ? "'" : "`") : 0);
@@ -190,7 +192,7 @@ inline std::string gen_name(Ctx &c, const NameRule &r, std::vector<std::string> 
   // duplicate of an earlier name that satisfies the same rule
   if (!pool.empty() && c.chance(50)) return pool[c.pick(pool.size())];
   if (r.allow_empty && (r.flags & Empty) && c.chance(24)) return "";
-  size_t len = c.chance(20) ? c.near({254, 255}, 255) : c.range(1, 9);
+  size_t len = c.chance(12) ? c.near({254, 255}, 255) : c.range(1, 9);
   if (len < 1) len = 1;
   static const char alpha[] = "abcdefghijklmnopqrstuvwxyzABCDEFGHIJKLMNOPQRSTUVWXYZ";
   static const char special[] = "!\"#$%&'()*+,-/:;<=>?@[\\]^_`{|}~";
@@ -223,9 +225,9 @@ inline std::string gen_name(Ctx &c, const NameRule &r, std::vector<std::string> 
 // high bytes / tabs / line breaks; long values are a drawn head and tail around a filling
 inline std::string gen_value(Ctx &c, const Fmt &f, size_t maxlen, bool allow_huge) {
   size_t len;
-  switch (c.weighted({3, 12, 3, 1})) {
-    case 0: len = 0; break;
-    case 1: len = c.range(1, 24); break;
+  switch (c.weighted({12, 3, 3, 1})) {
+    case 0: len = c.range(1, 24); break;
+    case 1: len = 0; break;
     case 2: len = c.near({1, 249, 250, 254, 255, 256}, 300); break;
     default: len = allow_huge ? c.near({65534, 65535, 65536}, 66000) : c.near({249, 250, 255, 256}, 300); break;
   }
@@ -328,6 +330,18 @@ struct TreeGen {
 
 // ---------------------------------------------------------------------------------------------
 // printer
+//
+// The decoration choices of one rendering are drawn from a small block of case bytes that is read
+// cyclically (each further round xor-ed with a round constant), so that a few case bytes decorate a whole
+// document: still a pure function of the case bytes, and zeroing the block gives the plain rendering.
+inline std::vector<uint8_t> deco_bytes(Ctx &c) {
+  size_t k = c.range(0, 8);
+  std::vector<uint8_t> seed = c.bytes(k), out;
+  for (size_t round = 0; k && round < 48; round++)
+    for (size_t i = 0; i < k; i++) out.push_back((uint8_t)(seed[i] ^ (round * 0x9d) ^ ((round * i) << 3)));
+  return out;
+}
+
 struct Printer {
   Ctx &c;
   const Fmt &f;
@@ -520,9 +534,9 @@ inline bool node_value(const mpt::node *n, std::string &out) {
   if (!mt) return false;
   mpt::convertable *cv = (mpt::convertable *)mt;
   const char *s = 0;
-  if (cv->_vptr->convert(cv, 's', &s) >= 0) { if (s) out = s; return true; }
+  if (cv->convert('s', &s) >= 0) { if (s) out = s; return true; }
   struct iovec vec = {0, 0};
-  if (cv->_vptr->convert(cv, vec_char_type(), &vec) >= 0) {
+  if (cv->convert(vec_char_type(), &vec) >= 0) {
     if (vec.iov_base && vec.iov_len) out.assign((const char *)vec.iov_base, vec.iov_len);
     if (!out.empty() && out.back() == 0) out.pop_back();  // text buffers carry their terminator
     return true;
@@ -531,6 +545,7 @@ inline bool node_value(const mpt::node *n, std::string &out) {
   return true;
 }
 inline void read_list(const mpt::node *first, std::vector<Node> &out, std::vector<const mpt::node *> *addr = 0, int depth = 0) {
+  using namespace mpt;
   size_t guard = 0;
   for (const mpt::node *n = first; n && guard < 100000 && depth < 64; n = n->next, ++guard) {
     Node m;
@@ -565,6 +580,7 @@ inline std::string walk(const mpt::node *parent, int depth = 0) {
 
 // build a library tree below 'parent' with the same functions the parser's node handler uses
 inline bool build(mpt::node *parent, const std::vector<Node> &v) {
+  using namespace mpt;
   for (auto &m : v) {
     mpt::node *n = mpt_node_new(m.name.size() + 1);
     if (!n) return false;
@@ -584,7 +600,7 @@ inline bool build(mpt::node *parent, const std::vector<Node> &v) {
 
 struct Root {  // zeroed root node whose children are released at scope end
   CObj<mpt::node> n;
-  ~Root() { mpt_node_clear(n); }
+  ~Root() { mpt::mpt_node_clear(n); }
   mpt::node *get() { return n.get(); }
 };
 
